@@ -44,6 +44,9 @@ SURROUND = [
     # the usual optional-dependency fallback: the name is also defined inside an except handler (no `as`), before the target
     ["try:\n    from fast import ConfigClass, set_cli_args, train\nexcept ImportError:\n    class ConfigClass(object):\n        z: int = 0\n\n"
      "    def set_cli_args(p):\n        return p\n\n    def train(x):\n        return x", "Y = 3"],
+    # a helper BEFORE the target that binds the target's name locally, inside unnamed compound statements
+    ["def load(kind):\n    if kind:\n        ConfigClass = None\n        set_cli_args = None\n    for train in ():\n        pass\n"
+     "    with open(kind) as f:\n        class ConfigClass(object):\n            z: int = 0\n    return kind", "Z = 4"],
 ]
 
 
@@ -181,11 +184,15 @@ def obligations(tier, seed):
                       body="H.C15.rewrite_first_only(%r, %s)" % (sid, N), witness=tuple(range(k)),
                       bounds="skeleton %s = %r: a later statement of the same scope binds the addressed name again; it must survive the rewrite" % (sid, skel),
                       timeout=100, funcs=FUNCS))
+    chunks = 3
     for t in range(3):
-        obs.append(Ob(
-            name="text_truth_%s" % KINDS[t], params=[("c", "int")], pre=["0 <= c < %d" % len(TABLE)],
-            body="H.preserve(%d, c, {ACTIVE})" % t, witness=(TABLE.index(((t + 1) % 3, 0, 1, 1, "agreeing", 0)),), kind="F",
-            bounds="truth %s; every target kind x %d surroundings x 3 positions x trailing newline x {stale, agreeing, absent} x function|method "
-            "(%d configurations, exhaustive)" % (KINDS[t], len(SURROUND), len(TABLE)),
-            timeout=280 if tier == "quick" else 1200, path_timeout=120, funcs=FUNCS))
+        for ch in range(chunks):
+            lo, hi = len(TABLE) * ch // chunks, len(TABLE) * (ch + 1) // chunks
+            wit = TABLE.index(((t + 1) % 3, 0, 1, 1, "agreeing", 0))
+            obs.append(Ob(
+                name="text_truth_%s_%d" % (KINDS[t], ch), params=[("c", "int")], pre=["%d <= c < %d" % (lo, hi)],
+                body="H.preserve(%d, c, {ACTIVE})" % t, witness=(wit if lo <= wit < hi else lo,), kind="F",
+                bounds="truth %s; every target kind x %d surroundings x 3 positions x trailing newline x {stale, agreeing, absent} x function|method "
+                "(table entries %d..%d of %d, exhaustive)" % (KINDS[t], len(SURROUND), lo, hi - 1, len(TABLE)),
+                timeout=280 if tier == "quick" else 1200, path_timeout=120, funcs=FUNCS))
     return obs
